@@ -6,6 +6,10 @@
 (* fault variants, crossed with argument lists built from 17 argument forms     *)
 (* (paths to files, directories, missing paths, globs with and without hits),   *)
 (* the flags -R, -z, --readers and the two commands; plus the stdin forms.      *)
+(* The varied slot is also a FIFO (transport "pipe": unseekable, reports size   *)
+(* 0) with plain / gzip / damaged gzip / empty content, and the tree is         *)
+(* extended by ONE external input, /dev/stdin or /dev/fd/3 (what a shell passes *)
+(* for <(cmd)), fed from a pipe or from a regular file.                         *)
 EXTENDS Inputs
 CONSTANT Level            \* 1: quick (pairs of arguments from a reduced form set), 2: all pairs
 
@@ -34,6 +38,10 @@ C_DATA  == Q \o <<LF, LF>> \o R1              \* empty middle line, no final new
 F_DATA  == SX \o <<LF>>
 LONG    == K2 \o <<LF>> \o J1 \o <<LF>> \o K5 \o <<LF>>
 HDRFRAG == <<31, 139, 8, 8, 1, 1>>            \* first bytes of a gzip header: NOT a gzip file
+MAGICTXT == <<31, 139>> \o LONG                \* a text that starts with the gzip magic number (>= 10 bytes)
+\* ten bytes that pass for a gzip header announcing a file name, then text without the terminating NUL:
+\* the header check reads on, byte by byte, to the end of the input before it gives up
+HDRNAME == <<31, 139, 8, 8, 0, 0, 0, 0, 0, 3>> \o K2 \o <<LF>> \o J1
 
 P_a  == <<n_a>>
 P_ab == <<n_ab>>
@@ -42,22 +50,39 @@ P_c  == <<n_d, n_c>>
 P_e  == <<n_d, n_e>>
 P_f  == <<n_d, n_e, n_f>>
 P_g  == <<n_d, n_g>>
+DevStdin == << <<>>, <<100, 101, 118>>, <<115, 116, 100, 105, 110>> >>     \* /dev/stdin
+DevFd3   == << <<>>, <<100, 101, 118>>, <<102, 100>>, <<51>> >>            \* /dev/fd/3
 
 Slots == {P_a, P_c, P_f}
 DefaultData(p) == IF p = P_a THEN A_DATA ELSE IF p = P_c THEN C_DATA ELSE F_DATA
 
-\* variants of one slot: <<kind, data>>
-Variants(p) == {
-  <<"file", <<>> >>, <<"file", <<LF>> >>, <<"file", ZZ>>, <<"file", HDRFRAG>>,
-  <<"gz", DefaultData(p)>>, <<"gz", <<>> >>,
-  <<"truncgz", LONG>>, <<"crcgz", DefaultData(p)>>, <<"badgz", <<>> >> }
+\* variants of one slot: <<kind, data, transport>>
+RegVariants(p) == {
+  <<"file", <<>>, "reg">>, <<"file", <<LF>>, "reg">>, <<"file", ZZ, "reg">>, <<"file", HDRFRAG, "reg">>,
+  <<"file", MAGICTXT, "reg">>,
+  <<"gz", DefaultData(p), "reg">>, <<"gz", <<>>, "reg">>,
+  <<"truncgz", LONG, "reg">>, <<"crcgz", DefaultData(p), "reg">>, <<"badgz", <<>>, "reg">> }
+\* the same contents arriving through something that cannot be rewound and reports size 0
+PipeVariants(p) == {
+  <<"file", <<>>, "pipe">>, <<"file", DefaultData(p), "pipe">>, <<"file", HDRFRAG, "pipe">>,
+  <<"file", MAGICTXT, "pipe">>, <<"file", HDRNAME, "pipe">>,
+  <<"gz", DefaultData(p), "pipe">>, <<"gz", <<>>, "pipe">>,
+  <<"truncgz", LONG, "pipe">>, <<"crcgz", DefaultData(p), "pipe">>, <<"badgz", <<>>, "pipe">> }
+PipeSlots == IF Level >= 2 THEN Slots ELSE {P_a, P_f}
+Variants(p) == RegVariants(p) \cup (IF p \in PipeSlots THEN PipeVariants(p) ELSE {})
 
 TreeWith(slot, v) ==
-  LET nd(p) == IF p = slot THEN [p |-> p, k |-> v[1], data |-> v[2]]
-               ELSE [p |-> p, k |-> "file", data |-> DefaultData(p)] IN
-  << nd(P_a), [p |-> P_ab, k |-> "file", data |-> AB_DATA], [p |-> P_d, k |-> "dir", data |-> <<>>],
-     nd(P_c), [p |-> P_e, k |-> "dir", data |-> <<>>], nd(P_f), [p |-> P_g, k |-> "dir", data |-> <<>>] >>
-T0 == TreeWith(<<>>, <<"file", <<>> >>)
+  LET nd(p) == IF p = slot THEN [p |-> p, k |-> v[1], data |-> v[2], tr |-> v[3]]
+               ELSE [p |-> p, k |-> "file", data |-> DefaultData(p), tr |-> "reg"]
+      dir(p) == [p |-> p, k |-> "dir", data |-> <<>>, tr |-> "reg"] IN
+  << nd(P_a), [p |-> P_ab, k |-> "file", data |-> AB_DATA, tr |-> "reg"], dir(P_d),
+     nd(P_c), dir(P_e), nd(P_f), dir(P_g) >>
+T0 == TreeWith(<<>>, <<"file", <<>>, "reg">>)
+\* the default tree plus one external input
+ExtPaths == IF Level >= 2 THEN {DevStdin, DevFd3} ELSE {DevStdin}
+ExtVariants(p) ==
+  PipeVariants(P_a) \cup {<<"file", A_DATA, "reg">>, <<"file", MAGICTXT, "reg">>, <<"gz", A_DATA, "reg">>}
+TreeExt(p, v) == Append(T0, [p |-> p, k |-> v[1], data |-> v[2], tr |-> v[3]])
 
 \* the argument forms
 gs == <<Star>>
@@ -66,10 +91,15 @@ Forms == <<
   <<n_m>>, <<n_a, n_x>>,                              \* 8 missing, 9 below a regular file
   <<gs>>, <<n_a \o gs>>, << <<Quest>> >>,             \* 10 "*"  11 "a*"  12 "?"
   <<n_d, gs>>, <<gs, gs>>, <<n_d, gs, n_f>>,          \* 13 "d/*"  14 "*/*"  15 "d/*/f"
-  << <<122, Star>> >>, <<n_d, n_e, gs>> >>            \* 16 "z*" (no hit -> literal)  17 "d/e/*"
+  << <<122, Star>> >>, <<n_d, n_e, gs>>,              \* 16 "z*" (no hit -> literal)  17 "d/e/*"
+  DevStdin, DevFd3 >>                                 \* 18 /dev/stdin  19 /dev/fd/3 (external inputs)
+ExtForms == {18, 19}
 PairForms == IF Level >= 2 THEN 1..Len(Forms) ELSE {1, 3, 6, 8, 13, 14}
+\* an external input is paired with a file, a missing path, a glob - and with itself
+ExtPartners == IF Level >= 2 THEN {1, 3, 8, 13, 14} ELSE {1, 8, 13}
 ArgLists ==
-  {<<Forms[i]>> : i \in 1..Len(Forms)} \cup {<<Forms[i], Forms[j]>> : i \in PairForms, j \in PairForms}
+  {<<Forms[i]>> : i \in 1..Len(Forms)} \cup {<<Forms[i], Forms[j]>> : i \in PairForms \ ExtForms, j \in PairForms \ ExtForms}
+  \cup UNION {{<<Forms[e], Forms[j]>>, <<Forms[j], Forms[e]>>, <<Forms[e], Forms[e]>>} : e \in ExtForms, j \in ExtPartners}
 
 StdinVariants == {[k |-> "data", data |-> A_DATA], [k |-> "data", data |-> <<>>],
                   [k |-> "data", data |-> ZZ], [k |-> "data", data |-> F_DATA],
@@ -77,19 +107,23 @@ StdinVariants == {[k |-> "data", data |-> A_DATA], [k |-> "data", data |-> <<>>]
 NoStdin == [k |-> "data", data |-> <<>>]
 
 Trees == {T0} \cup UNION {{TreeWith(s, v) : v \in Variants(s)} : s \in Slots}
+              \cup UNION {{TreeExt(p, v) : v \in ExtVariants(p)} : p \in ExtPaths}
 \* the slot in which a tree differs from T0 (<<>> for T0)
-VariedSlot(t) == LET S == {i \in DOMAIN t : t[i] # T0[i]} IN IF S = {} THEN <<>> ELSE t[CHOOSE i \in S : TRUE].p
+VariedSlot(t) == LET S == {i \in DOMAIN t : i > Len(T0) \/ t[i] # T0[i]} IN IF S = {} THEN <<>> ELSE t[CHOOSE i \in S : TRUE].p
+HasPipe(t) == \E i \in DOMAIN t : t[i].tr = "pipe"
 
-FileScenariosOf(TS) ==
-  {sc \in [tree : TS, stdin : {NoStdin}, args : ArgLists, rec : BOOLEAN, gz : BOOLEAN,
-           readers : {1, 2}, cmd : {"filter", "histo"}] :
+\* the scenarios over the trees TS, argument lists AL and commands CS
+FileScenariosIn(TS, AL, CS) ==
+  {sc \in [tree : TS, stdin : {NoStdin}, args : AL, rec : BOOLEAN, gz : BOOLEAN,
+           readers : {1, 2}, cmd : CS, nofile : {0}] :
      /\ InDomain(sc)
      /\ (Level < 2 /\ sc.cmd = "histo") => sc.readers = 2     \* quick: the histogram leg with one readers setting
      \* a varied slot that no argument mentions is the same run as with T0
      /\ VariedSlot(sc.tree) # <<>> => \E i \in DOMAIN Mentions(sc) : Mentions(sc)[i].p = VariedSlot(sc.tree)}
+FileScenariosOf(TS) == FileScenariosIn(TS, ArgLists, {"filter", "histo"})
 StdinScenarios ==
   [tree : {T0}, stdin : StdinVariants, args : {<<>>, <<DashArg>>}, rec : {FALSE}, gz : {FALSE},
-   readers : {1, 2}, cmd : {"filter", "histo"}]
+   readers : {1, 2}, cmd : {"filter", "histo"}, nofile : {0}]
 Universe == FileScenariosOf(Trees) \cup StdinScenarios
 
 \* the universe cut into n parts by tree (for parallel TLC runs); part 0 also holds the stdin scenarios
